@@ -24,6 +24,9 @@ pub struct IntOp {
     /// how many elements the right operand has (N for vector∘vector, 1 for scalar, 0 for unary)
     pub rhs_n: usize,
     pub lhs_scalar: bool,
+    /// element kind of the right operand (differs from the vector's for shifts)
+    pub rhs_elem: Elem,
+    pub is_shift: bool,
     pub vec: VecOp,
     pub prim: LaneOp,
 }
@@ -31,26 +34,56 @@ pub struct IntOp {
 macro_rules! binop {
     ($v:ident, $T:ident, $E:ty, $N:expr, $tr:ident, $m:ident, $am:ident, $sym:tt) => {
         // vector ∘ vector
-        $v.push(IntOp { name: format!("<{} as {}>::{}", stringify!($T), stringify!($tr), stringify!($m)), ty: TyId::$T, rhs_n: $N, lhs_scalar: false,
+        $v.push(IntOp { name: format!("<{} as {}>::{}", stringify!($T), stringify!($tr), stringify!($m)), ty: TyId::$T, rhs_n: $N, lhs_scalar: false, rhs_elem: <$E as Scalar>::KIND, is_shift: false,
             vec: |a, b| { let (x, y) = (mk::<$T>(a), mk::<$T>(b)); bits(&(x $sym y)) },
             prim: |a, b| (<$E>::from_bits64(a) $sym <$E>::from_bits64(b)).to_bits64() });
         // vector ∘ &vector (reference forms share the implementation but are separate impls)
-        $v.push(IntOp { name: format!("<{} as {}<&{}>>::{}", stringify!($T), stringify!($tr), stringify!($T), stringify!($m)), ty: TyId::$T, rhs_n: $N, lhs_scalar: false,
+        $v.push(IntOp { name: format!("<{} as {}<&{}>>::{}", stringify!($T), stringify!($tr), stringify!($T), stringify!($m)), ty: TyId::$T, rhs_n: $N, lhs_scalar: false, rhs_elem: <$E as Scalar>::KIND, is_shift: false,
             vec: |a, b| { let (x, y) = (mk::<$T>(a), mk::<$T>(b)); bits(&(&x $sym &y)) },
             prim: |a, b| (<$E>::from_bits64(a) $sym <$E>::from_bits64(b)).to_bits64() });
         // vector ∘ scalar
-        $v.push(IntOp { name: format!("<{} as {}<{}>>::{}", stringify!($T), stringify!($tr), stringify!($E), stringify!($m)), ty: TyId::$T, rhs_n: 1, lhs_scalar: false,
+        $v.push(IntOp { name: format!("<{} as {}<{}>>::{}", stringify!($T), stringify!($tr), stringify!($E), stringify!($m)), ty: TyId::$T, rhs_n: 1, lhs_scalar: false, rhs_elem: <$E as Scalar>::KIND, is_shift: false,
             vec: |a, b| { let x = mk::<$T>(a); bits(&(x $sym <$E>::from_bits64(b[0]))) },
             prim: |a, b| (<$E>::from_bits64(a) $sym <$E>::from_bits64(b)).to_bits64() });
         // scalar ∘ vector
-        $v.push(IntOp { name: format!("<{} as {}<{}>>::{}", stringify!($E), stringify!($tr), stringify!($T), stringify!($m)), ty: TyId::$T, rhs_n: $N, lhs_scalar: true,
+        $v.push(IntOp { name: format!("<{} as {}<{}>>::{}", stringify!($E), stringify!($tr), stringify!($T), stringify!($m)), ty: TyId::$T, rhs_n: $N, lhs_scalar: true, rhs_elem: <$E as Scalar>::KIND, is_shift: false,
             vec: |a, b| { let y = mk::<$T>(b); bits(&(<$E>::from_bits64(a[0]) $sym y)) },
             prim: |a, b| (<$E>::from_bits64(a) $sym <$E>::from_bits64(b)).to_bits64() });
         // compound assignment
-        $v.push(IntOp { name: format!("<{} as {}Assign>::{}", stringify!($T), stringify!($tr), stringify!($am)), ty: TyId::$T, rhs_n: $N, lhs_scalar: false,
+        $v.push(IntOp { name: format!("<{} as {}Assign>::{}", stringify!($T), stringify!($tr), stringify!($am)), ty: TyId::$T, rhs_n: $N, lhs_scalar: false, rhs_elem: <$E as Scalar>::KIND, is_shift: false,
             vec: |a, b| { let (mut x, y) = (mk::<$T>(a), mk::<$T>(b)); $am(&mut x, y); bits(&x) },
             prim: |a, b| (<$E>::from_bits64(a) $sym <$E>::from_bits64(b)).to_bits64() });
     };
+}
+
+macro_rules! shift {
+    ($v:ident, $T:ident, $E:ty, $N:expr, $($S:ty),*) => {$(
+        $v.push(IntOp { name: format!("<{} as Shl<{}>>::shl", stringify!($T), stringify!($S)), ty: TyId::$T, rhs_n: 1, lhs_scalar: false,
+            rhs_elem: <$S as Scalar>::KIND, is_shift: true,
+            vec: |a, b| { let x = mk::<$T>(a); bits(&(x << <$S>::from_bits64(b[0]))) },
+            prim: |a, b| (<$E>::from_bits64(a) << <$S>::from_bits64(b)).to_bits64() });
+        $v.push(IntOp { name: format!("<{} as Shr<{}>>::shr", stringify!($T), stringify!($S)), ty: TyId::$T, rhs_n: 1, lhs_scalar: false,
+            rhs_elem: <$S as Scalar>::KIND, is_shift: true,
+            vec: |a, b| { let x = mk::<$T>(a); bits(&(x >> <$S>::from_bits64(b[0]))) },
+            prim: |a, b| (<$E>::from_bits64(a) >> <$S>::from_bits64(b)).to_bits64() });
+    )*};
+}
+macro_rules! lane_method {
+    ($v:ident, $T:ident, $E:ty, $N:expr, $($m:ident),*) => {$(
+        $v.push(IntOp { name: format!("{}::{}", stringify!($T), stringify!($m)), ty: TyId::$T, rhs_n: $N, lhs_scalar: false,
+            rhs_elem: <$E as Scalar>::KIND, is_shift: false,
+            vec: |a, b| { let (x, y) = (mk::<$T>(a), mk::<$T>(b)); bits(&x.$m(y)) },
+            prim: |a, b| <$E>::from_bits64(a).$m(<$E>::from_bits64(b)).to_bits64() });
+    )*};
+}
+macro_rules! checked_method {
+    // `None` is treated like a panic on both sides: the vector op must be None iff some lane's primitive is None
+    ($v:ident, $T:ident, $E:ty, $N:expr, $($m:ident),*) => {$(
+        $v.push(IntOp { name: format!("{}::{}", stringify!($T), stringify!($m)), ty: TyId::$T, rhs_n: $N, lhs_scalar: false,
+            rhs_elem: <$E as Scalar>::KIND, is_shift: false,
+            vec: |a, b| { let (x, y) = (mk::<$T>(a), mk::<$T>(b)); bits(&x.$m(y).expect("checked operation returned None")) },
+            prim: |a, b| <$E>::from_bits64(a).$m(<$E>::from_bits64(b)).expect("checked operation returned None").to_bits64() });
+    )*};
 }
 
 macro_rules! int_type {
@@ -60,19 +93,22 @@ macro_rules! int_type {
         binop!($v, $T, $E, $N, Mul, mul, mul_assign_shim, *);
         binop!($v, $T, $E, $N, Div, div, div_assign_shim, /);
         binop!($v, $T, $E, $N, Rem, rem, rem_assign_shim, %);
+        shift!($v, $T, $E, $N, i8, i16, i32, i64, u8, u16, u32, u64);
+        lane_method!($v, $T, $E, $N, wrapping_add, wrapping_sub, wrapping_mul, wrapping_div, saturating_add, saturating_sub, saturating_mul, saturating_div);
+        checked_method!($v, $T, $E, $N, checked_add, checked_sub, checked_mul, checked_div);
         int_type!(@signed $v, $T, $E, $N, $s);
     };
     (@signed $v:ident, $T:ident, $E:ty, $N:expr, y) => {
-        $v.push(IntOp { name: format!("{}::div_euclid", stringify!($T)), ty: TyId::$T, rhs_n: $N, lhs_scalar: false,
+        $v.push(IntOp { name: format!("{}::div_euclid", stringify!($T)), ty: TyId::$T, rhs_n: $N, lhs_scalar: false, rhs_elem: <$E as Scalar>::KIND, is_shift: false,
             vec: |a, b| { let (x, y) = (mk::<$T>(a), mk::<$T>(b)); bits(&x.div_euclid(y)) },
             prim: |a, b| <$E>::from_bits64(a).div_euclid(<$E>::from_bits64(b)).to_bits64() });
-        $v.push(IntOp { name: format!("{}::rem_euclid", stringify!($T)), ty: TyId::$T, rhs_n: $N, lhs_scalar: false,
+        $v.push(IntOp { name: format!("{}::rem_euclid", stringify!($T)), ty: TyId::$T, rhs_n: $N, lhs_scalar: false, rhs_elem: <$E as Scalar>::KIND, is_shift: false,
             vec: |a, b| { let (x, y) = (mk::<$T>(a), mk::<$T>(b)); bits(&x.rem_euclid(y)) },
             prim: |a, b| <$E>::from_bits64(a).rem_euclid(<$E>::from_bits64(b)).to_bits64() });
-        $v.push(IntOp { name: format!("<{} as Neg>::neg", stringify!($T)), ty: TyId::$T, rhs_n: 0, lhs_scalar: false,
+        $v.push(IntOp { name: format!("<{} as Neg>::neg", stringify!($T)), ty: TyId::$T, rhs_n: 0, lhs_scalar: false, rhs_elem: <$E as Scalar>::KIND, is_shift: false,
             vec: |a, _| { let x = mk::<$T>(a); bits(&(-x)) },
             prim: |a, _| (-<$E>::from_bits64(a)).to_bits64() });
-        $v.push(IntOp { name: format!("{}::abs", stringify!($T)), ty: TyId::$T, rhs_n: 0, lhs_scalar: false,
+        $v.push(IntOp { name: format!("{}::abs", stringify!($T)), ty: TyId::$T, rhs_n: 0, lhs_scalar: false, rhs_elem: <$E as Scalar>::KIND, is_shift: false,
             vec: |a, _| { let x = mk::<$T>(a); bits(&x.abs()) },
             prim: |a, _| <$E>::from_bits64(a).abs().to_bits64() });
     };
@@ -128,6 +164,20 @@ pub fn int_ops() -> Vec<IntOp> {
 
 const N_INT_LATTICE: usize = 6;
 
+/// `v` converted to the element kind the way `as` would, in the model's storage convention
+fn scalar_bits_of(e: Elem, v: i64) -> u64 {
+    match e {
+        Elem::I8 => v as i8 as u64,
+        Elem::U8 => v as u8 as u64,
+        Elem::I16 => v as i16 as u64,
+        Elem::U16 => v as u16 as u64,
+        Elem::I32 => v as i32 as u64,
+        Elem::U32 => v as u32 as u64,
+        Elem::I64 => v as u64,
+        _ => v as u64,
+    }
+}
+
 fn render(e: Elem, b: &[u64]) -> String {
     let v: Vec<String> = b.iter().map(|x| scalar_val(e, *x).render()).collect();
     format!("[{}]", v.join(", "))
@@ -158,7 +208,7 @@ pub fn judge(op: &IntOp, a: &[u64], b: &[u64]) -> (Option<(String, String)>, boo
     }
     let f = op.vec;
     let got = util::catch(|| f(a, b));
-    let shown = format!("{}({}, {})", op.name, render(e, a), render(e, b));
+    let shown = format!("{}({}, {})", op.name, render(e, a), render(op.rhs_elem, b));
     match (prim_panics, got) {
         (Some(_), Err(_)) => (None, true),
         (Some((l, msg)), Ok(r)) => (
@@ -194,9 +244,19 @@ pub fn run(seed: u64, samples: usize, workers: usize) -> Summary {
             let op = &ops[oi];
             let n = op.ty.n();
             let e = op.ty.elem();
+            let be = op.rhs_elem;
             let an = if op.lhs_scalar { 1 } else { n };
             let bn = op.rhs_n;
             let mut rng = Rng::new(seed, "c18i", oi as u64);
+            const SHIFTS: [i64; 18] = [0, 1, 2, 7, 8, 9, 15, 16, 17, 31, 32, 33, 63, 64, 65, -1, 127, 255];
+            let gen_b = |rng: &mut Rng, cls: Cls| -> u64 {
+                if op.is_shift && !matches!(cls, Cls::RandomBits) {
+                    // shift amounts around every lane width, truncated to the right operand's type
+                    scalar_bits_of(be, SHIFTS[rng.below(SHIFTS.len())])
+                } else {
+                    gen_scalar_bits(be, rng, cls)
+                }
+            };
             let mut evals = 0u64;
             let mut panics = 0u64;
             let mut viol = None;
@@ -216,10 +276,10 @@ pub fn run(seed: u64, samples: usize, workers: usize) -> Summary {
                     for lb in 0..bn.max(1) {
                         for ib in 0..N_INT_LATTICE {
                             let mut a: Vec<u64> = (0..an).map(|_| gen_scalar_bits(e, &mut rng, Cls::Ordinary)).collect();
-                            let mut b: Vec<u64> = (0..bn).map(|_| gen_scalar_bits(e, &mut rng, Cls::Ordinary)).collect();
+                            let mut b: Vec<u64> = (0..bn).map(|_| gen_b(&mut rng, Cls::Ordinary)).collect();
                             a[la] = gen_scalar_bits(e, &mut rng, Cls::Lattice(ia));
                             if bn > 0 {
-                                b[lb] = gen_scalar_bits(e, &mut rng, Cls::Lattice(ib));
+                                b[lb] = if op.is_shift { scalar_bits_of(be, SHIFTS[(ib * 3 + ia) % SHIFTS.len()]) } else { gen_scalar_bits(be, &mut rng, Cls::Lattice(ib)) };
                             }
                             run_case(a, b);
                         }
@@ -229,7 +289,7 @@ pub fn run(seed: u64, samples: usize, workers: usize) -> Summary {
             for _ in 0..samples {
                 let cls = if rng.chance(1, 2) { Cls::RandomBits } else { Cls::Mix };
                 let a: Vec<u64> = (0..an).map(|_| gen_scalar_bits(e, &mut rng, cls)).collect();
-                let b: Vec<u64> = (0..bn).map(|_| gen_scalar_bits(e, &mut rng, cls)).collect();
+                let b: Vec<u64> = (0..bn).map(|_| gen_b(&mut rng, cls)).collect();
                 run_case(a, b);
             }
             (evals, panics, viol)
